@@ -129,6 +129,17 @@ func (w *world) do(kind string, f func()) {
 	w.log.end(id)
 }
 
+// chainAck builds an acknowledgement callback that emits again, with an acknowledgement, on the same socket from
+// inside the callback (two levels deep): acknowledgement handlers are handlers too, and they must be able to
+// use the socket they belong to.
+func (w *world) chainAck(emit func(cb func(int)), depth int) func(int) {
+	return func(int) {
+		if depth < 2 && w.inHandl.Add(1) <= 2000 {
+			emit(w.chainAck(emit, depth+1))
+		}
+	}
+}
+
 func noopHandlers() []any {
 	return []any{func() {}, func(int) {}, func(string, int) {}}
 }
@@ -152,7 +163,7 @@ func (w *world) randomOp(r *rand.Rand, inHandler bool) {
 	case 0:
 		w.do("client.Emit", func() { cs.Emit("e", n) })
 	case 1:
-		w.do("client.Emit+ack", func() { cs.Emit("ea", n, func(int) {}) })
+		w.do("client.Emit+ack", func() { cs.Emit("ea", n, w.chainAck(func(cb func(int)) { cs.Emit("ea", n, cb) }, 0)) })
 	case 2:
 		w.do("client.Timeout.Emit", func() { cs.Timeout(50*time.Millisecond).Emit("ea", n, func(error, int) {}) })
 	case 3:
@@ -239,7 +250,7 @@ func (w *world) randomOp(r *rand.Rand, inHandler bool) {
 	case 28:
 		w.do("ss.Emit", func() { ss.Emit("e", n) })
 	case 29:
-		w.do("ss.Emit+ack", func() { ss.Emit("ea", n, func(int) {}) })
+		w.do("ss.Emit+ack", func() { ss.Emit("ea", n, w.chainAck(func(cb func(int)) { ss.Emit("ea", n, cb) }, 0)) })
 	case 30:
 		w.do("ss.Timeout.Emit", func() { ss.Timeout(50*time.Millisecond).Emit("ea", n, func(error, int) {}) })
 	case 31:
